@@ -1,3 +1,4 @@
+import AquaVerif.Proofs.Day
 import AquaVerif.Proofs.WaterDay
 /-
 Property C04 — fluxes are non-negative and actual never exceeds potential.
@@ -239,5 +240,24 @@ example : ∃ out, waterDay DayExample.Fq DayExample.Wq DayExample.fmq DayExampl
   have hp : 0 ≤ out.trPot := hpot.le
   exact ⟨out, h, hes, he.2.2, htr, (day_tr_bounds h hdz hp).1,
     day_cr_nonneg h DayExample.Fq_gw.1 hdz⟩
+
+
+/-! ### the full day -/
+
+/-- **Full day.** Outside a growing season transpiration, potential transpiration, irrigation and
+days-after-planting of the emitted rows are zero, and so are canopy, biomass, harvest indices and
+yields (`Model/Day.lean`, tied by the `full_day` replay). -/
+theorem full_day_offseason_zero {α : Type} [Field α] [LinearOrder α] [IsStrictOrderedRing α]
+    {F : Fn α} {T : TrigFn α} {P : DayParams α} {st : DayState' α} {D : DayIn' α} {r : DayResult α}
+    (h : fullDay F T P st D = .ok r) (hg : D.gs = false) :
+    (r.flux.tr = 0 ∧ r.flux.trPot = 0 ∧ r.flux.irrDay = 0 ∧ r.flux.dap = 0) ∧
+    (r.growth.dap = 0 ∧ r.growth.gdd = 0.3 ∧ r.growth.gddCum = 0 ∧ r.growth.zRoot = 0 ∧
+      r.growth.cc = 0 ∧ r.growth.ccNS = 0 ∧ r.growth.biomass = 0 ∧ r.growth.biomassNS = 0 ∧
+      r.growth.hi = 0 ∧ r.growth.hiAdj = 0 ∧ r.growth.dryYield = 0 ∧ r.growth.freshYield = 0 ∧
+      r.growth.yieldPot = 0) ∧
+    (r.state.germination = false ∧ r.state.delayedCds = 0 ∧ r.state.delayedGdds = 0 ∧
+      r.state.growthStage = 0 ∧ r.state.hiRef = 0 ∧ r.state.ccAdj = 0 ∧ r.state.ccxAct = 0 ∧
+      r.state.ccxW = 0 ∧ r.state.irrNetCum = r.water.preIrr ∧ r.state.rCor = st.rCor) :=
+  fullDay_offseason_zero h hg
 
 end Aqua.C04
